@@ -207,6 +207,7 @@ impl<'tcx> Dumper<'tcx> {
             o.push(("hir", self.expr(body.value, tr)));
         }
         o.push(("mir", self.mir(ldid)));
+        o.push(("promoted", self.promoted(ldid)));
         J::Obj(o)
     }
 
@@ -788,8 +789,17 @@ impl<'tcx> Dumper<'tcx> {
     }
 
     fn mir(&self, ldid: LocalDefId) -> J {
+        let body: &mir::Body<'tcx> = self.tcx.optimized_mir(ldid.to_def_id());
+        self.mir_body(ldid, body)
+    }
+
+    fn promoted(&self, ldid: LocalDefId) -> J {
+        let proms = self.tcx.promoted_mir(ldid.to_def_id());
+        J::Arr(proms.iter().map(|b| self.mir_body(ldid, b)).collect())
+    }
+
+    fn mir_body(&self, ldid: LocalDefId, body: &mir::Body<'tcx>) -> J {
         let tcx = self.tcx;
-        let body: &mir::Body<'tcx> = tcx.optimized_mir(ldid.to_def_id());
         let mut locals = Vec::new();
         let mut names: Vec<Option<String>> = vec![None; body.local_decls.len()];
         for vdi in &body.var_debug_info {
